@@ -1,15 +1,12 @@
 /-
-Model/Extra.lean — further modelled behaviour (core Lean only).
+Model/Extra.lean — density_scatter(discrete=True) (core Lean only).
 
-  density_scatter(discrete=True): np.unique(points, axis=0, return_counts=True) then argsort by count
+  points, counts = np.unique(zip(x, y), axis=0, return_counts=True); with `sort` the points are
+  reordered by count so that the densest are drawn last
       → uniquePoints / densityScatterDiscrete
-  io.multimerge on tables with unique keys (outer / inner join of all tables on the key)
-      → joinKeys / multimerge
 -/
 import Prs.Model.Search
 namespace Prs
-
-/-! ### density_scatter, discrete mode -/
 
 /-- lexicographic order on points (the row order of `np.unique(axis=0)`) -/
 def pointLe (a b : Rat × Rat) : Bool := decide (a.1 < b.1) || (decide (a.1 = b.1) && decide (a.2 ≤ b.2))
@@ -18,36 +15,10 @@ def pointLe (a b : Rat × Rat) : Bool := decide (a.1 < b.1) || (decide (a.1 = b.
 def uniquePoints (pts : List (Rat × Rat)) : List ((Rat × Rat) × Nat) :=
   ((dedup pts).mergeSort pointLe).map fun p => (p, pts.count p)
 
-/-- what is handed to `ax.scatter`: with `sort` the points are ordered by multiplicity (stable), so
-the densest are drawn last -/
+/-- what is handed to `ax.scatter`: with `sort` the points are ordered by multiplicity, so the densest
+are drawn last (NumPy's argsort is not stable; the model picks the stable order, the theorems and the
+harness use only that the result is a permutation sorted by multiplicity) -/
 def densityScatterDiscrete (sort : Bool) (pts : List (Rat × Rat)) : List ((Rat × Rat) × Nat) :=
   if sort then (uniquePoints pts).mergeSort (fun a b => decide (a.2 ≤ b.2)) else uniquePoints pts
-
-/-! ### multimerge on uniquely keyed tables -/
-section merge
-variable {K : Type} [DecidableEq K]
-
-/-- a table: one row of cells per key (keys unique), `width` cells per row -/
-structure KeyedTable (K : Type) where
-  width : Nat
-  rows : List (K × List (Option (List Char)))
-
-/-- keys of the join: union (outer) or intersection (inner) of the tables' key sets -/
-def joinKeys (outer : Bool) (tables : List (KeyedTable K)) : List K :=
-  if outer then dedup (tables.flatMap fun t => t.rows.map (·.1))
-  else match tables with
-    | [] => []
-    | t :: rest => (dedup (t.rows.map (·.1))).filter fun k => rest.all fun u => (u.rows.map (·.1)).contains k
-
-/-- the cells a table contributes for key k: its row, or `width` missing cells -/
-def cellsFor (t : KeyedTable K) (k : K) : List (Option (List Char)) :=
-  match t.rows.find? (fun r => r.1 == k) with
-  | some r => r.2
-  | none => List.replicate t.width none
-
-/-- `multimerge(dfs, on=key, how=outer|inner)`: one row per join key, the tables' cells side by side -/
-def multimerge (outer : Bool) (tables : List (KeyedTable K)) : List (K × List (Option (List Char))) :=
-  (joinKeys outer tables).map fun k => (k, tables.flatMap fun t => cellsFor t k)
-end merge
 
 end Prs
